@@ -40,6 +40,11 @@ class Comment(TypedExpression):
             if inner.endswith("*/"):
                 inner = inner[:-2]
             if "\n" in inner:
+                # Text that shares a line with a delimiter is padded on rebuild.
+                if inner.split("\n", 1)[0].strip():
+                    inner = inner.lstrip(" ")
+                if inner.rsplit("\n", 1)[1].strip():
+                    inner = inner.rstrip(" ")
                 indent_prefix = " " * node.start_point.column
                 lines = inner.split("\n")
                 normalized = [lines[0]]
@@ -98,10 +103,11 @@ class MultilineComment(Comment):
         if "\n" in self.text:
             # Multiline
             result: str
+            first_indent = 0 if self.inline else indent
             if self.text.startswith("\n"):
-                result = " " * indent + opening
+                result = " " * first_indent + opening
             else:
-                result = f"{opening} "
+                result = " " * first_indent + f"{opening} "
             lines = self.text.split("\n")
             result += lines[0]
             extra_indent = 2 if self.inner_indent is None else self.inner_indent
